@@ -1083,3 +1083,22 @@ Definition remove_intersections (ss : schemas) : res schemas :=
              | s :: rest => do x <- ri_schema st s ; do rest' <- go rest (snd x) ; Ok (fst x :: rest')
              end) ss ([], []) ;
   Ok r.
+
+(* the inputs on which DisjunctionInferMapping depends on Go's map order: some visited
+   disjunction of references without discriminator has two or more distinct candidate fields *)
+Definition dim_ambiguous_disj (s : schema) (st : bool) (t : ty) : res (ty * bool) :=
+  match t with
+  | TDisj _ d =>
+      if has_only_refs (d_branches d) && seqb (d_disc d) "" then
+        do c <- dim_infer_candidates s d ;
+        Ok (t, st || Nat.leb 2 (List.length (nodup string_dec c)))
+      else Ok (t, st)
+  | _ => Ok (t, st)
+  end.
+Definition dim_ambiguous (ss : schemas) : bool :=
+  existsb (fun s =>
+             existsb (fun t => match visit_disj (dim_ambiguous_disj s) false t with
+                               | Ok r => snd r
+                               | _ => false
+                               end)
+                     (s_entrytype s :: map (fun ko => o_type (snd ko)) (s_objects s))) ss.
